@@ -93,10 +93,8 @@ func (c *tcase) line() string {
 }
 
 func parseLine(l string) (*tcase, error) {
-	f := strings.Split(l, "\t")
-	if len(f) == 1 { // oracle.txt replaces tabs by blanks
-		f = strings.Split(l, " ")
-	}
+	// oracle.txt replaces tabs by blanks; no field contains either
+	f := strings.FieldsFunc(l, func(c rune) bool { return c == '\t' || c == ' ' })
 	if len(f) < 5 {
 		return nil, fmt.Errorf("bad case line")
 	}
